@@ -17,6 +17,8 @@ type Loop struct {
 	labelStart    string
 	labelBreak    string
 	labelContinue string
+	// Number of try-blocks (of the current function) which enclosed the loop when it was entered.
+	tryDepth uint
 }
 
 type Function struct {
@@ -37,7 +39,10 @@ type Compiler struct {
 	varNameMangle   map[string]uint64
 	labelNameMangle map[string]uint64
 	varScopes       []map[string]string
-	currScope       *map[string]string
+	// Number of try-blocks of the current function which enclose the code that is currently being compiled.
+	// A `break`, `continue` or `return` leaving such blocks must unregister their exception handlers.
+	tryDepth  uint
+	currScope *map[string]string
 	currModule      string
 	lambdaCount     uint
 	// Program source: required for invocations of the evaluator.
